@@ -64,6 +64,7 @@ FRAG = {
         'br': 'x<br> y',
         'h': '<h1> T <small>s</small> </h1>',
         'styleattr': '<p style="color: red" class="k">s</p>',
+        'onattr': '<p onclick="x()" class="k">e</p><button type="button" onclick=\'return false\'>b</button>',
         'tstmt': '{O} if  x {C}<p>y</p>{O}  end {C}',
         'tattr': '<a href="{O}= u {C}" class="k" title="{O}  t  {C}">t</a>',
         'tmix': 'a {O}  x  {C} b <b>{O}y{C}</b>',
@@ -130,6 +131,8 @@ FRAG = {
                 '{ total += index } while (total > 10) { total-- } return total }',
         'obj': 'var record = { key: value, "other": 1, method: function () { return 1 } };',
         'str': 'var plain = \'it\\\'s "q"\';',
+        'pow': 'var power = Math.pow(alpha, 2) + Math.pow(beta, gamma);',
+        'short': 'function pack(alpha, beta) { return { alpha: alpha, beta: beta, other: alpha } }\nvar shown = { gamma: gamma };',
     },
 }
 
@@ -234,7 +237,7 @@ def lexeme_pool(ctx):
     for lang, rx in NUM_RE.items():
         ok = sorted(x for x in lex if rx.match(x))
         pools[lang] = dict(N=ok, P=[x for x in ok if x[0] not in '+-'])
-    pools['css-noexp'] = {k: [x for x in v if 'e' not in x.lower()] for k, v in pools['css'].items()}
+    pools['css-keepcss2'] = {k: [x for x in v if not ('e' in x.lower() and x[0] == '0')] for k, v in pools['css'].items()}
     return pools
 
 
@@ -430,7 +433,7 @@ def render(case, pools, rnd):
         else:
             pl = pools.get(lang, {})
             if lang == 'css' and 'KeepCSS2' in case['on']:
-                pl = pools['css-noexp']          # known finding: exponent-form numbers under KeepCSS2
+                pl = pools['css-keepcss2']       # known finding: exponent-form lexemes that begin with the digit 0 under KeepCSS2
             t = fill(t, pl, rnd)
         parts.append(t)
     if lang == 'html':
@@ -696,10 +699,8 @@ def run(ctx):
              'model spec/OptDesign.tla (state dump and -simulate walks) under its 2^7 option sets; non-trivial = at '
              'least one option differs from its default and the output differs from the input; distinct by sha1 of '
              '(language, options, flags, exact input); (c) the repository\'s own JS test inputs under 8 Version x KeepVarNames '
-             'settings, judged on those two clauses. Generator exclusions (pinned as known findings, see '
-             'known/C16.txt): JS `Math.pow(a,b)` calls, JS object properties whose key equals the value identifier '
-             '(`{name: name}`), CSS numbers written with an exponent while KeepCSS2 is on, HTML event handler attributes '
-             '(`onclick="..."`).',
+             'settings, judged on those two clauses. Generator exclusion (pinned as known finding, see known/C16.txt): CSS exponent-form numbers that begin with '
+             'the digit 0 while KeepCSS2 is on; the constructs of the five fixed findings are generated again.',
         samples=tally.samples,
     ))
     ctx.assumptions += [
